@@ -79,6 +79,9 @@ func main() {
 				continue
 			}
 			if f[0] == "reset" {
+				for _, h := range resetHooks { // (the restart suite's hook also removes its broker from st)
+					h(st)
+				}
 				if b := bkOf(st); b != nil {
 					b.releaseAll()
 					for _, c := range b.conns {
